@@ -27,7 +27,7 @@ func (c06) Describe() CheckInfo {
 	return CheckInfo{
 		Level: "exploration",
 		Rule: "seeded worlds of 1-6 Go files (non-canonical layouts, corpus inputs, unparseable and matching neighbours) x 1-3 generated patch files x all 32 flag combinations, " +
-			"run through gopatch's real main() on the simulated filesystem; every tenth world is re-run with each operation of its fault-free run failed once (output stream at its first, last and a middle byte; neighbours' reads and writes, also persistently; kills): unmatched files must stay untouched and exit status 0 must still mean a complete echo; a case is non-trivial when it contains at least one file that cannot match by construction; " +
+			"run through gopatch's real main() on the simulated filesystem; every tenth world is re-run with each operation of its fault-free run failed once (output stream at its first, last and a middle byte; neighbours' reads and writes, also persistently; kills): unmatched files must stay untouched and exit status 0 must still mean a complete echo; a case is non-trivial when it contains at least one file that cannot match by construction; a third of the generated unmatched files are near misses that mention the triggers (pattern and file differ in one spelled-out token: variadic '...', '=', arity, receiver, package name; or the trigger sits in a string, comment or longer identifier); " +
 			"distinct = distinct (template multiset, unmatched-file layout styles, flag set, patch channel) tuples",
 		Assumptions: []string{
 			"a file whose bytes lack the trigger identifier of every supplied change cannot be an instance of any '-' pattern; near-miss files mention the trigger but differ from the pattern in a token it spells out (variadic '...', '=', arity, receiver, package name) or carry it only in strings, comments and longer identifiers (other matcher false positives are property C01, not C06)",
